@@ -178,7 +178,7 @@ package trie
 //@   modifies nothing
 
 //@ func NodeDatabase.commit
-//@   property C03
+//@   property C02 C03
 //@   requires db != nil && typeid(batch) != 0
 //@   requires [wf]     forall h common.Hash :: has(db.nodes, h) ==> db.nodes[h] != nil
 //@   # modelling fact: a [32]byte value is determined by its 32 bytes (SMT arrays are total maps)
@@ -212,7 +212,7 @@ package trie
 //@   modifies entries(db.nodes), db.oldest, db.newest, db.nodesSize, heap("storage/trie.cachedNode")
 
 //@ func NodeDatabase.Commit
-//@   property C03
+//@   property C02 C03
 //@   requires db != nil && typeid(db.diskdb) != 0 && ref(db.diskdb) != 0
 //@   requires [wf]     forall h common.Hash :: has(db.nodes, h) ==> db.nodes[h] != nil
 //@   requires [repr!init] forall h common.Hash :: bytes(h) == bytes(node) ==> h == node
